@@ -380,6 +380,61 @@ def rule_7(ctx):
     ctx.floor(18, 'day-difference cells')
 
 
+DATE_CARRIES = [(1900, 0, 32), (1900, 0, 60), (1900, -1, 100), (1900, -26, 1000), (1900, -11, 36525), (1900, 1, 1), (1901, -11, 1), (1901, -12, 32),
+                (2024, 14, 1), (2024, 0, 1), (2024, -11, 15), (2023, 2, 29), (2024, 1, 366), (2024, 3, 0), (2024, 3, -1), (2000, 25, 45), (1999, 12, 32),
+                (2010, -24, -30), (1900, 13, 1), (9999, 12, 31), (2100, 2, 29), (2000, 2, 30), (1900, 12, 31), (1903, -35, 1)]
+DATE_BEFORE_EPOCH = [(1900, 1, 0), (1900, 0, 31), (1901, -12, 31), (1900, -5, 1)]
+BOUNDARY_YEARS = [1999, 2004, 2009, 2014, 2015, 2020, 2023, 2024, 2099, 2100, 2200, 2300, 2400, 9998]
+
+
+def rule_8(ctx):
+    """The calendar, row by row: DATE carrying months and days far outside their ranges (also back into range across the epoch),
+    and YEAR / MONTH / DAY / ISOWEEKNUM / WEEKDAY of the serials around year ends - century years that are and are not leap
+    years included - against the proleptic Gregorian calendar of Python's datetime (with Excel's serial 60 convention)."""
+    import datetime as dt
+    from . import values as V
+
+    def serial(d):
+        n = (d - dt.date(1899, 12, 31)).days
+        return n + 1 if d >= dt.date(1900, 3, 1) else n
+    models = V.date_models()
+    f = V.registered(ctx, 'DATE')
+    n = 0
+    for y, m, d in DATE_CARRIES + DATE_BEFORE_EPOCH:
+        out = V.call(ctx, 'DATE', [V.num(y), V.num(m), V.num(d)], models=models)
+        got = V.norm(out.value) if out.end == 'return' else f'<{out.end} {V.norm(out.value)!r}>'
+        if (y, m, d) in DATE_BEFORE_EPOCH:
+            want = '#NUM!'
+            ok = got in (('error', '#NUM!'), ('error-class', 'NumExcelError'))
+        else:
+            y2, m2 = y + (m - 1) // 12, (m - 1) % 12 + 1
+            day = dt.date(y2, m2, 1) + dt.timedelta(days=d - 1)
+            want = serial(day)
+            val = got[1] if isinstance(got, tuple) and len(got) == 2 and got[0] in ('Number', 'DateTime') else got
+            if isinstance(val, dt.datetime):
+                val = serial(val.date()) if val.time() == dt.time.min else val
+            ok = val == want
+        n += 1
+        ctx.expect(ok, f.node, f'DATE({y},{m},{d})', f'DATE({y},{m},{d}) gives {got!r}, expected {want!r}: months carry into years and days into months in both '
+                   'directions, the result is what counts - before 1900-01-01 it is #NUM!, otherwise the serial of that day')
+    years = BOUNDARY_YEARS if ctx.tier != 'quick' else BOUNDARY_YEARS[::2] + [2100, 2200]
+    for y in years:
+        for off in range(-4, 4):
+            day = dt.date(y, 12, 31) + dt.timedelta(days=off + 1)
+            if day.year > 9999:
+                continue
+            s_ = serial(day)
+            for name, want in (('YEAR', day.year), ('MONTH', day.month), ('DAY', day.day), ('ISOWEEKNUM', day.isocalendar()[1]), ('WEEKDAY', day.isoweekday() % 7 + 1)):
+                fn = V.registered(ctx, name)
+                out = V.call(ctx, name, [V.num(s_)], models=models)
+                got = V.norm(out.value) if out.end == 'return' else f'<{out.end} {V.norm(out.value)!r}>'
+                val = got[1] if isinstance(got, tuple) and len(got) == 2 and got[0] == 'Number' else got
+                n += 1
+                ctx.expect(val == want and not isinstance(val, bool), fn.node, f'{name}({s_}) [{day.isoformat()}]',
+                           f'{name}({s_}) gives {got!r}; serial {s_} is {day.isoformat()}, a {day.strftime("%A")}, whose {name.lower()} is {want}')
+    ctx.floor(300, 'calendar rows')
+
+
 RULES = [
     ('C18.1', 'serial <-> date: leap-day offsets at critical points, time-of-day coefficients', rule_1),
     ('C18.2', 'epoch and year-range guards', rule_2),
@@ -388,4 +443,5 @@ RULES = [
     ('C18.5', 'YEARFRAC basis dispatch', rule_5),
     ('C18.6', 'DATEDIF on critical date pairs (anniversary -1/0/+1 day, leap years) through the registered wrapper', rule_6),
     ('C18.7', 'witness workbook: DAYS and date subtraction equal the difference of the serials', rule_7),
+    ('C18.8', 'calendar rows: DATE carries across the epoch, calendar fields around year ends of ordinary, leap and century years', rule_8),
 ]
